@@ -19,7 +19,8 @@ RULE = ("cases = (policy, loop order of depth 1-3, tensors with rank lists/shape
         "windows x evict-on {root, M} (buffet, read-only); every read/write labelling of <= 3/4 rows over an in-shape and a "
         "staging line (buffet and cache); every line sequence of <= 5/6 rows over 3 lines x capacities 0..4 lines, unbounded "
         "(cache), also with stamp ties; all small filter / combine / next-use inputs. random: 1-3 bindings over 1-2 tensors, "
-        "loop_ranks renaming, several elements per line, shared trace files, ties. non-trivial = some line is reused "
+        "loop_ranks renaming, several elements per line, shared trace files, ties, multi-digit stamps / coordinates / "
+        "positions (9 next to 10, 2 next to 11, 100; also exhaustively for filter / combine / next-use). non-trivial = some line is reused "
         "(buffet/cache), some row dropped and some kept (filter), both files non-empty (combine), a reuse (nextuse)")
 
 _T = {}
@@ -325,6 +326,11 @@ def _small_buffet(tier):
                     tr = [{"tensor": "B", "rank": "K", "type": "payload", "access": "read",
                            "header": ["M", "K"], "rows": rows}]
                     yield _case("buffet", tens, b, tr, 32, [64], kind="small-read")
+                    if 2 <= ln <= 3:   # the same over two-digit stamps / coordinates / positions (9, 10, 11)
+                        rows2 = [[m + 8, k + 9, m + 8, p + 9, p + 9] for (m, k), p in zip(st, lines)]
+                        tr2 = [dict(tr[0], rows=rows2)]
+                        yield _case("buffet", [{"name": "B", "ranks": ["K"], "shape": [16]}], b, tr2, 32, [64],
+                                    kind="small-read-wide")
     # reads and writes over an in-shape line (pos 0) and a staging line (pos 1, shape 1)
     tens = [{"name": "Z", "ranks": ["K"], "shape": [1]}]
     maxlen = 3 if tier == "quick" else 4
@@ -357,6 +363,10 @@ def _small_cache(tier):
             rows = [[t, p, p] for t, p in enumerate(lines)]
             tr = [{"tensor": "B", "rank": "K", "type": "payload", "access": "read", "header": ["K"], "rows": rows}]
             yield _case("cache", tens, b, tr, 32, caps, kind="small-read", bruteforce=list(lines))
+            if 2 <= ln <= 4:
+                tr2 = [dict(tr[0], rows=[[t + 8, p + 9, p + 9] for t, p in enumerate(lines)])]
+                yield _case("cache", [{"name": "B", "ranks": ["K"], "shape": [16]}], b, tr2, 32, [32, 64, None],
+                            kind="small-read-wide", bruteforce=list(lines))
     # stamp ties: every non-decreasing stamp pattern
     maxlen = 4 if tier == "quick" else 5
     for ln in range(2, maxlen + 1):
@@ -399,6 +409,15 @@ def _small_tools(tier):
                     rows_in = [[i, c, i] for i, c in enumerate(inp)]
                     rows_f = [[i, c, i] if nf == 1 else [i, i % 2, c, i % 3, i] for i, c in enumerate(fil)]
                     yield {"prop": PROP, "op": "filter", "n": 1, "nf": nf, "inp": rows_in, "fil": rows_f}
+    # ... and over coordinates with different digit counts next to each other (numeric, not textual, order)
+    wide = (2, 9, 10, 11, 100)
+    for inp in itertools.chain.from_iterable(itertools.combinations(wide, r) for r in range(1, len(wide) + 1)):
+        for r in range(1, 4):
+            for fil in itertools.combinations_with_replacement(wide, r):
+                for nf in (1, 2):
+                    rows_in = [[i, c, i] for i, c in enumerate(inp)]
+                    rows_f = [[i, c, i] if nf == 1 else [i, i % 2, c, (7 * i) % 12, i] for i, c in enumerate(fil)]
+                    yield {"prop": PROP, "op": "filter", "n": 1, "nf": nf, "inp": rows_in, "fil": rows_f}
     # combine: all merges of short sorted stamp lists over {0,1,2}
     for nr in range(0, 4):
         for rs in itertools.combinations_with_replacement(range(3), nr):
@@ -411,6 +430,10 @@ def _small_tools(tier):
                         yield {"prop": PROP, "op": "combine", "n": 1, "reads": reads, "writes": None}
                     if nr == 0 and nw > 0:
                         yield {"prop": PROP, "op": "combine", "n": 1, "reads": None, "writes": writes}
+    for rs in itertools.chain.from_iterable(itertools.combinations((2, 9, 10, 11), r) for r in range(0, 4)):
+        for ws in itertools.chain.from_iterable(itertools.combinations((2, 9, 10, 11), r) for r in range(1, 4)):
+            yield {"prop": PROP, "op": "combine", "n": 1, "reads": [[s, 10 + i, i] for i, s in enumerate(rs)],
+                   "writes": [[s, 20 + i, i] for i, s in enumerate(ws)]}
     # next use: every sequence of <= 5 positions over 0..3 with 1 or 2 elements per line
     ml = 4 if tier == "quick" else 5
     for ln in range(0, ml + 1):
@@ -418,6 +441,9 @@ def _small_tools(tier):
             for epl in (1, 2):
                 rows = [[[t, p, p], bool((t + p) % 2)] for t, p in enumerate(ps)]
                 yield {"prop": PROP, "op": "nextuse", "n": 1, "rows": rows, "mask": [True], "epl": epl}
+                if ln <= 4:     # the same with two-digit positions / stamps (9, 10, 11, 12)
+                    rows = [[[8 + t, 9 + p, 9 + p], bool((t + p) % 2)] for t, p in enumerate(ps)]
+                    yield {"prop": PROP, "op": "nextuse", "n": 1, "rows": rows, "mask": [True], "epl": epl}
 
 
 NAMES = ["M", "K", "N"]
@@ -426,12 +452,13 @@ NAMES = ["M", "K", "N"]
 def _gen_rows(rng, n, length, coord_u, pos_u, p_tie, coherent=True):
     """`length` rows of depth n with lexicographically non-decreasing stamps"""
     stamp = [0] * n
+    step = rng.choice(((1, 1, 2), (1, 1, 2), (1, 4, 9)))       # stamps also cross 9 -> 10, 99 -> 100
     memo = {}
     rows = []
     for t in range(length):
         if t > 0 and rng.random() >= p_tie:
             j = min(n - 1, int(rng.random() ** 0.5 * n))      # deeper levels move more often
-            stamp = stamp[:j] + [stamp[j] + rng.choice((1, 1, 2))] + [0] * (n - j - 1)
+            stamp = stamp[:j] + [stamp[j] + rng.choice(step)] + [0] * (n - j - 1)
         coords = []
         for j in range(n):
             if coherent and j < n - 1:
@@ -461,7 +488,7 @@ def _random_traffic(rng, op, tier):
             alias = "X%d" % ti
             own[j] = alias
             loop_ranks.append((alias, sub[j]))
-        tensors.append({"name": name, "ranks": own, "shape": [rng.choice((2, 3, 4, 6)) for _ in own],
+        tensors.append({"name": name, "ranks": own, "shape": [rng.choice((2, 3, 4, 6, 11, 13)) for _ in own],
                         "_loop": sub})
     ls = rng.choice((32, 64, 128))
     bits = {}
@@ -489,7 +516,7 @@ def _random_traffic(rng, op, tier):
         acc = rng.choice(("read", "read", "both", "both", "write"))
         length = rng.choice((0, 1, 3, 5, 8, 12)) if tier == "quick" else rng.choice((0, 2, 6, 12, 20, 30))
         shape = t["shape"][j]
-        rows = _gen_rows(rng, n, length, rng.choice((1, 2, 3)), shape + (2 if acc != "read" else 0),
+        rows = _gen_rows(rng, n, length, rng.choice((1, 2, 3, 12)), shape + (2 if acc != "read" else 0),
                          rng.choice((0.0, 0.0, 0.15, 0.4)), coherent=rng.random() < 0.7)
         hdr = order[:n]
         if acc == "read":
@@ -534,7 +561,7 @@ def _random_tools(rng, tier):
     if which == "filter":
         n = rng.choice((1, 2))
         nf = n + rng.choice((0, 1))
-        u = 3
+        u = rng.choice((3, 3, 12, 25))
         pts = sorted(set(tuple(rng.randrange(u) for _ in range(n)) for _ in range(rng.randrange(7))))
         fpts = sorted(tuple(rng.randrange(u) for _ in range(nf)) for _ in range(rng.randrange(9)))
         inp = [[i] * n + list(p) + [rng.randrange(5)] for i, p in enumerate(pts)]
@@ -542,12 +569,12 @@ def _random_tools(rng, tier):
         return {"prop": PROP, "op": "filter", "n": n, "nf": nf, "inp": inp, "fil": fil}
     if which == "combine":
         n = rng.choice((1, 2, 3))
-        rows = _gen_rows(rng, n, rng.randrange(10), 3, 4, 0.3)
+        rows = _gen_rows(rng, n, rng.randrange(10), rng.choice((3, 12)), 4, 0.3)
         w = [rng.random() < 0.5 for _ in rows]
         return {"prop": PROP, "op": "combine", "n": n, "reads": [r for r, x in zip(rows, w) if not x],
                 "writes": [r for r, x in zip(rows, w) if x]}
     n = rng.choice((1, 2, 3))
-    rows = _gen_rows(rng, n, rng.randrange(12), 2, 6, 0.2)
+    rows = _gen_rows(rng, n, rng.randrange(12), rng.choice((2, 12)), rng.choice((6, 14)), 0.2)
     mask = [rng.random() < 0.6 for _ in range(n - 1)] + [True]
     return {"prop": PROP, "op": "nextuse", "n": n, "rows": [[r, rng.random() < 0.4] for r in rows],
             "mask": mask, "epl": rng.choice((1, 2, 4))}
